@@ -130,8 +130,16 @@ def count_values(p, r, L, values, rng, label):
             return ("%s: value offset %d is never produced: the map from words to values is monotone (validated on %d random words), word %d gives %s and word %d gives %s" % (label, c, len(pv), lo, p.one(lo), hi, p.one(hi))), {c: (lo, hi, 0)}
     info = {}
     for c in vals:
-        below = mid(c - 1) if c > 0 else -1
-        above = mid(c + 1) if c + 1 < r else B
+        below = min(mid(c - 1), seeds[c] - 1) if c > 0 else -1
+        above = max(mid(c + 1), seeds[c] + 1) if c + 1 < r else B
+        # ranges wider than half the word space: an interval is one or two words, the "middle" of a neighbour may be the seed itself
+        step = max(1, B // r)
+        for _ in range(4):
+            if below >= 0 and p.one(below) == c:
+                below -= step
+            if above < B and p.one(above) == c:
+                above += step
+        below, above = max(below, -1), min(above, B)
         first = boundary_from_zero(p, seeds[c], lambda v: v == c) if below < 0 else boundary(p, below, seeds[c], lambda v: v == c)
         last = last_to_top(p, seeds[c], lambda v: v == c, B) if above >= B else boundary(p, seeds[c], above, lambda v: v != c) - 1
         info[c] = (first, last, last - first + 1)
@@ -202,6 +210,50 @@ def validate_steps(p, runs, rng, per=8):
     return None
 
 
+def threshold_words(r, L):
+    """the words at which a multiply-shift sampler over L-bit words DECIDES between accepting and rejecting: low half of word * r equal to
+    0, 1, zone - 2 .. zone + 1, r - 1, r (zone = 2^L mod r), solved for the word with the modular inverse of the odd part of r.  Guided by the
+    published algorithm, used only to choose WHICH values get counted / which first words to continue from - the verdict stays the count."""
+    B = 1 << L
+    zone = B % r
+    k = (r & -r).bit_length() - 1
+    m, M = r >> k, 1 << (L - k)
+    inv = pow(m, -1, M) if M > 1 else 0
+    out = []
+    for t in (0, zone - 1, zone, zone - 2, zone + 1, 1, r - 1, r):
+        if t < 0 or t >= B or t % (1 << k):
+            continue
+        w0 = ((t >> k) * inv) % M
+        for j in sorted({0, (1 << k) - 1}):
+            w = w0 + j * M
+            if w < B and w not in out:
+                out.append(w)
+    return out
+
+
+def second_stage_counts(binary, build, rng, label, r, L, mk, mk2, parse, max_first=2):
+    """the draw AFTER a rejected first word must again map the accepted words onto the values in exactly equal numbers.  First words are
+    taken from the decision boundary of the published sampler and used when the implementation rejects them (needs a second word)."""
+    calls = 0
+    p1 = Prober(binary, mk, parse)
+    firsts = [w for w in threshold_words(r, L) if p1.one(w) is None][:max_first]
+    calls += p1.calls
+    for w1 in firsts:
+        p2 = Prober(binary, (lambda W, w1=w1: mk2(w1, W)), parse)
+        if p2.one(((1 << L) // 2) | 12345) is None:
+            continue                                    # the request does not get further with a second word either (not a rejection)
+        vals = sorted({0, 1, r - 1, r // 2} | {(w * r) >> L for w in threshold_words(r, L)} | {rng.below(r) for _ in range(12)}) if r > 8 else list(range(r))
+        lab2 = "%s after the rejected first word %d" % (label, w1)
+        msg2, info2 = count_values(p2, r, L, [v for v in vals if 0 <= v < r], rng, lab2)
+        calls += p2.calls
+        if msg2 == "inconclusive":
+            yield {"kind": "note", "text": "preimage count inconclusive for %s: %s" % (lab2, info2)}
+        elif msg2:
+            yield {"kind": "oracle", "build": build, "request": mk2(w1, info2[min(info2)][0]), "impl": str({k: v for k, v in info2.items()})[:600], "model": "",
+                   "oracle": msg2 + " - the draw after a rejection is not exactly uniform"}
+    yield {"kind": "count", "what": "second-stage-preimage-probes", "n": calls}
+
+
 def first_draw_counts(binary, build, rng, specs, what):
     """exact preimage counts of the FIRST draw of an index-like operation, by interval search on the implementation:
     specs = [(label, number of outcomes r, word bits L, mk(word) -> request, parse(result) -> outcome index or None [, mk2(word1, word2) -> request])].
@@ -215,9 +267,11 @@ def first_draw_counts(binary, build, rng, specs, what):
         p = Prober(binary, mk, parse)
         # exact rejection sampling gives EVERY value the same number of words: 40 values are counted (a defect that shortchanges a tenth of the
         # values of a mid-sized range is then seen with probability 0.98)
-        vals = sorted({0, 1, r - 1, r // 2} | {rng.below(r) for _ in range(36)}) if r > 8 else list(range(r))
+        vals = sorted({0, 1, r - 1, r // 2} | {(w * r) >> L for w in threshold_words(r, L)} | {rng.below(r) for _ in range(36)}) if r > 8 else list(range(r))
         msg, info = count_values(p, r, L, [v for v in vals if 0 <= v < r], rng, label)
         total += p.calls
+        if mk2 and r > 8 and not msg:
+            yield from second_stage_counts(binary, build, rng, label, r, L, mk, mk2, parse, max_first=1)
         if msg == "inconclusive":
             yield {"kind": "note", "text": "preimage count inconclusive for %s: %s" % (label, info)}
         elif msg:
